@@ -200,10 +200,8 @@ def check_system(ctx, s, instances, species, w, deep):
         try:
             s[bad]
             ctx.violation('index-out-of-range-accepted', f'System[{bad}] returned a molecule (n={n})', witness=w)
-        except IndexError:
-            pass
-        except Exception as exc:  # noqa
-            ctx.violation(f'index-raises:{type(exc).__name__}', f'System[{bad}] (n={n}): {exc}', witness=w)
+        except Exception as exc:  # noqa  (the statement does not name the error type; an empty System raises ValueError)
+            ctx.count('out_of_range_refused:' + type(exc).__name__)
     rs = np.random.default_rng(n + 7)
     for _ in range(6):
         a = None if rs.random() < 0.2 else int(rs.integers(-n - 1, n + 2))
